@@ -77,6 +77,15 @@ def _ops_async(case):
     skey = _failing(skey, case)
     if skey is None or case["key"] == "sync":
         keyf = skey
+    elif case["key"] == "asyncobj":
+        class KeyObj:                     # an object whose `__call__` is `async def`: not a coroutine FUNCTION
+            async def __call__(self, it):
+                return skey(it)
+        keyf = KeyObj()
+    elif case["key"] == "lambda":
+        async def _k(it):
+            return skey(it)
+        keyf = lambda it: _k(it)          # noqa: E731 - a plain callable returning a coroutine
     else:
         async def keyf(it):
             return skey(it)
@@ -278,15 +287,15 @@ def _op_seqs(maxlen, maxh):
 def cases(tier, rng):
     L, nops, maxh = (4, 6, 3) if tier == "quick" else (5, 7, 3)
     srcs = ["list", "iter", "agen", "aobj", "seq", "aobj_nc"]
-    keysm = ["none", "sync", "async"]
+    keysm = ["none", "sync", "async", "asyncobj", "lambda"]
     n = 0
     for ln in range(0, L + 1):
         for keys in itertools.product([0, 1], repeat=ln):
             for ops in _op_seqs(nops, maxh):
                 n += 1
-                yield {"keys": list(keys), "ops": ops, "key": keysm[n % 3], "src": srcs[n % len(srcs)]}
+                yield {"keys": list(keys), "ops": ops, "key": keysm[n % 5], "src": srcs[n % len(srcs)]}
                 if n % 4 == 0 and ln >= 2:
-                    yield {"keys": list(keys), "ops": ops, "key": keysm[(n // 4) % 3], "src": srcs[n % len(srcs)],
+                    yield {"keys": list(keys), "ops": ops, "key": keysm[(n // 4) % 5], "src": srcs[n % len(srcs)],
                            "kvals": KVALS[(n // 12) % 5]}
     # the key function fails at one or two of its invocations; the consumer catches the error and carries on with the
     # same handles: the failing item is dropped exactly as itertools.groupby drops it
@@ -296,7 +305,7 @@ def cases(tier, rng):
                 n += 1
                 for kf in ([0], [1], [2], [3], [1, 2]):
                     if kf[-1] < ln and (tier != "quick" or (n + kf[0]) % 3 == 0):
-                        yield {"keys": list(keys), "ops": ops + [["grp", 0], ["adv"], ["grp", 1]], "key": keysm[1 + n % 2],
+                        yield {"keys": list(keys), "ops": ops + [["grp", 0], ["adv"], ["grp", 1]], "key": keysm[1 + n % 4],
                                "src": srcs[n % len(srcs)], "keyfail": kf}
     nr = 3000 if tier == "quick" else 60000
     for _ in range(nr):
